@@ -148,10 +148,25 @@ fn c02_two_pass() -> R {
 fn c02_whole() -> R {
     let cat = if rt::thorough() { spec::catalogue(9, true, false, true) } else { spec::catalogue(7, true, false, true) };
     let s = &cat[choice(cat.len())];
-    let e = build(s);
-    let before = bytes(&e);
+    let mut e = build(s);
     let key = test_key();
-    rt::note(s.show());
+    // optionally hide two of its assertions in place first (any action each), so that the whole-envelope form meets
+    // several obscured assertion elements side by side
+    let asr = e.assertions();
+    let mut pre = String::new();
+    if asr.len() >= 2 && flag() {
+        let i = choice(asr.len() - 1); let j = i + 1 + choice(asr.len() - 1 - i);
+        let (h1, h2) = (choice(3), choice(3));
+        op("elide_removing_target_with_action (two assertions, before the whole-envelope form)");
+        let r1 = e.elide_removing_target_with_action(&asr[i], &action(h1));
+        let r2 = r1.elide_removing_target_with_action(&asr[j], &action(h2));
+        ensure!(dg(&r2) == dg(&e), "root digest changed by obscuring", "two assertions of {}", s.show());
+        ensure!(r2.assertions().len() == asr.len(), "assertion count changed by obscuring", "two assertions of {}", s.show());
+        pre = format!(" after hiding assertions {} and {} ({}/{})", i, j, h1, h2);
+        e = r2;
+    }
+    let before = bytes(&e);
+    rt::note(format!("{}{}", s.show(), pre));
     let form = choice(5);
     let r = match form {
         0 => { op("elide"); let r = e.elide(); ensure!(kind(&r) == Kind::Elided, "elide() did not give an elided element", ""); r }
@@ -161,7 +176,7 @@ fn c02_whole() -> R {
         _ => { op("compress_subject"); match e.compress_subject() { Ok(r) => r, Err(_) => { ensure!(matches!(kind(&e.subject()), Kind::Encrypted | Kind::Elided), "compress_subject refused a plain subject", ""); return Ok(()); } } }
     };
     ensure!(bytes(&e) == before, "obscuring altered its receiver", "form {}", form);
-    ensure!(dg(&r) == dg(&e), "root digest changed by whole-envelope obscuring", "form {} on {}", form, s.show());
+    ensure!(dg(&r) == dg(&e), "root digest changed by whole-envelope obscuring", "form {} on {}{}", form, s.show(), pre);
     if form == 1 || form == 4 {
         ensure!(dg(&r.subject()) == dg(&e.subject()), "subject digest changed", "form {}", form);
         let (ra, ea) = (r.assertions(), e.assertions());
@@ -266,7 +281,7 @@ pub fn prop_c02() -> Prop {
                 bounds: "every shape of <=5 elements + 4 nested shapes (quick) / <=7 + 21 larger shapes (thorough) x first pass: any single position obscured with any action x second pass over the result: every target set of <=2 digests x {removing, revealing} x 3 actions x every digest order",
                 api: API },
             Scenario { name: "whole", f: c02_whole, thorough_only: false,
-                bounds: "every shape of <=7 (9) elements with known values + larger shapes x {elide, encrypt_subject, encrypt/decrypt, compress, compress_subject} x every digest order",
+                bounds: "every shape of <=7 (9) elements with known values + larger shapes, as built or with any two of its assertions first hidden in place (each by elide / encrypt / compress) x {elide, encrypt_subject, encrypt/decrypt, compress, compress_subject} x every digest order",
                 api: &["elide", "encrypt_subject", "encrypt", "decrypt", "compress", "compress_subject"] },
         ],
         assumptions: COMMON_ASSUMPTIONS.to_vec(),
